@@ -145,6 +145,8 @@ def execute(ctx, env, case, resp=None):
            "later-date": "Fri, 01 Jan 2100 00:00:00 GMT", "lm-plus-1s": _shift_date(lm, 1), "lm-minus-1s": _shift_date(lm, -1)}[kind]
     if ifr is not None:
         headers.append(("If-Range", ifr))
+        if (size + len(ifr)) % 2:
+            headers.reverse()  # header order is the client's: If-Range may stand before Range
 
     fam = "wsgi" if iface == "wsgi" else "asgi"
     BOUNDARY_SEED[0] += 1
